@@ -107,7 +107,7 @@ PROPS["C11"] = dict(
                 "exactly (sauce_cut), never more than the input, for every input.",
 )
 PROPS["C02"] = dict(
-    units=["sauce"],
+    units=["sauce", "xbin_load"],
     trusted_base=LOADER_TRUST,
     unverified_remainder=["IcyDraw load_buffer (PNG decoder callbacks, zTXt, base64)", "Palette::load_palette (regex)",
                           "text formats load through parse_with_parser -> an emulation on a non-terminal buffer (C01's unit covers terminal buffers)"],
@@ -171,15 +171,35 @@ PROPS["C13"] = dict(
 )
 
 PROPS["C06"] = dict(
-    units=["xbin_compress"],
+    units=["xbin_compress", "xbin_load"],
     trusted_base=COMMON_TRUST + [
         "Buffer::get_char is used through its contract r == comp(stack, pos) proved in unit `composite` (imported as an assumed contract here)",
         "TextAttribute::as_u8 is an uninterpreted function attr_byte(fg, bg, attr flags, ice mode): assumed to read exactly those four values (not the font page)",
         "`Compression as u8` discriminants as Verus translates the #[repr(u8)] enum; picture at most 65535 x 65535 (the header stores u16 sizes)",
     ],
     unverified_remainder=["count_length (the cost look-ahead) is proved terminating and overflow-free only: no functional contract is needed, the run-ending decisions are free choices in the proof",
-                          "XBin::to_bytes around the compressor (header, palette, font blocks, SAUCE append) and the real decoder read_data_compressed are not under contract in this unit"],
+                          "XBin::to_bytes around the compressor (header, palette, font blocks, SAUCE append: 'nothing but the optional SAUCE record follows the last row') is not under contract",
+                          "the link 'rows_ok(bytes) ==> xb_wf(bytes) and xb_cells(bytes) == the row cells in order' between the two units is lemma_decodes_wf per row; the concatenation over rows is not stated as a lemma"],
     explanation="compress_backtrack is proved against an independent decoder specification written from doc/FileFormats/x_bin.htm (decodes_to): the bytes it appends are, row by row, "
                 "a whole number of runs of 1..=64 cells that decode to exactly the `width` (character byte, attribute byte) pairs the uncompressed writer would emit for that row "
-                "(rows_ok), for every buffer, every look-ahead decision and every run length; bytes already in the output are untouched.",
+                "(rows_ok), for every buffer, every look-ahead decision and every run length; bytes already in the output are untouched. "
+                "Unit xbin_load proves the real decoder read_data_compressed against the same specification: on every stream of complete runs it stores exactly "
+                "dec_cell(xb_cells(bytes)[n]) at the n-th row-major position (picture_ok), read_data_uncompressed stores dec_cell of the byte pairs at the same positions, "
+                "so equal cell sequences give identical pictures; on any other byte string both readers terminate without a panic.",
+)
+
+
+PROPS["C05"] = dict(
+    units=["xbin_load"],
+    kani_quick=["c18_attr_byte_roundtrip", "c18_attr_tuple_roundtrip"],
+    trusted_base=LOADER_TRUST + [
+        "Buffer::new / Layer::new / Line::create: one unlocked visible layer pre-filled with `height` rows of `width` invisible cells (read from the code, assumed as vx_buffer_new)",
+        "Buffer::set_sauce, Palette::from_63 assignment, BitFont::create_8 / set_font / clear_font_table are opaque statements (O1) with frame-only contracts",
+    ],
+    unverified_remainder=["only the XBin reader side and the attribute byte codec are under contract: XBin::to_bytes, and the BIN, ADF, IDF and Tundra readers and writers are NOT decided",
+                          "for pictures higher than 25 rows the loaded height is proved <= the header height, equality needs the data to be complete (not stated)",
+                          "palette and font block contents (from_63 is proved in unit palette; glyph data in C17)"],
+    explanation="XBin::load_buffer is proved total on every byte string up to 16 MiB and to return the header's width, a height equal to the header's for pictures of at most 25 rows "
+                "(the defect found), the ice flag of the header; the image readers place dec_cell of every (character, attribute) pair at its row-major position; "
+                "TextAttribute::from_u8 equals its specification and Kani proves as_u8(from_u8(b, m), m) == b for every byte and mode (loop-free, complete).",
 )
